@@ -289,7 +289,7 @@ def lexicase_cases(max_pop, max_cases, max_target, vals):
     return st.integers(1, max_pop).flatmap(
         lambda n: st.integers(1, max_cases).flatmap(
             lambda k: st.builds(
-                lambda vectors, minimize, eps, tgt, seed: {"vectors": vectors, "minimize": minimize, "epsilon": eps, "target": 1 + tgt % min(n, max_target), "seed": seed},
+                lambda vectors, minimize, eps, tgt, seed: {"vectors": vectors, "minimize": minimize, "epsilon": eps, "target": 1 + tgt % (min(n, max_target) + (2 if tgt % 5 == 0 else 0)), "seed": seed},
                 st.lists(st.lists(vals, min_size=k, max_size=k), min_size=n, max_size=n),
                 st.lists(st.booleans(), min_size=k, max_size=k),
                 st.booleans(),
@@ -335,6 +335,8 @@ class LexicaseAllDraws(Facet):
     def run(self, case, rec):
         rec.sample(case, limit=2)
         rec.label("epsilon" if case["epsilon"] else "plain")
+        # (the completeness clause below is about selections that can succeed: k <= population size)
+        case = {**case, "target": min(case["target"], len(case["vectors"]))}
 
         def run(src):
             return run_lexicase(case, src)
